@@ -251,7 +251,8 @@ REG['C18'] = dict(
 REG['C19'] = dict(
     text='Lean 4 theorems over the merge fold of merge_ocr_results.py: if some engine has positive mean confidence the merged '
          'line takes transcription, logits, character table AND recorded confidence from the same engine, the first one attaining '
-         'the maximum; otherwise engine 0 is kept; ids and geometry always those of the first layout; self-merge changes nothing. '
+         'the maximum; otherwise engine 0 is kept; ids and geometry always those of the first layout; self-merge changes nothing; '
+         'CHAINED merging (a merged layout merged again with further engines, or with itself) equals merging all engines at once. '
          'Correspondence on the real merge_layouts with in-memory layouts (different charsets, empty transcriptions, the 0.5 '
          'fallback, lines arriving with a stored confidence), confidences sent as exact dyadics.',
     note='Trusted: Lean kernel + standard axioms; the per-engine mean character confidence is an input of the model (computed by '
